@@ -99,11 +99,12 @@ pub(crate) fn parse_chunk(data: &[u8]) -> Result<ColorPalette> {
         )));
     }
 
-    let count = last_color_index - first_color_index + 1;
+    // Note: `last - first + 1` overflows for the range 0..=u32::MAX.
+    let last_offset = last_color_index - first_color_index;
     //let mut entries = Vec::with_capacity(count as usize);
     let mut entries = IntMap::default();
 
-    for id in 0..count {
+    for id in 0..=last_offset {
         let flags = reader.word()?;
         let red = reader.byte()?;
         let green = reader.byte()?;
